@@ -376,8 +376,17 @@ def c10_formats(cfg):
             S1 = sb.matrix_to_sympy(H1)
             yield "list of sympy matrices", [S0, S1], dict(subspace_indices=[0, 1, 1])
             yield "dict of sympy matrices", {(0,): sympy.diag(0, 1, 3), (1,): S1}, dict(subspace_indices=[0, 1, 1])
+            # a caller-built blocked BlockSeries: the dictionary handed to BlockSeries(data=...) stays the caller's
+            from pymablock.series import BlockSeries
 
-        for name, ham, kw in variants():
+            d = {(0, 0, 0): np.diag([0.0]), (1, 1, 0): np.diag([1.0, 3.0])}
+            for (i, j), sl in {(0, 0): (slice(0, 1), slice(0, 1)), (0, 1): (slice(0, 1), slice(1, 3)), (1, 0): (slice(1, 3), slice(0, 1)), (1, 1): (slice(1, 3), slice(1, 3))}.items():
+                d[(i, j, 1)] = symc.SymArray(np.asarray(H1)[sl])
+            yield "BlockSeries data dictionary", BlockSeries(data=d, shape=(2, 2), n_infinite=1), {}, d
+
+        for variant in variants():
+            name, ham_in, kw = variant[:3]
+            ham = variant[3] if len(variant) > 3 else ham_in
             keys = list(ham.keys()) if isinstance(ham, dict) else list(range(len(ham)))
             before = {}
             for k in keys:
@@ -393,7 +402,7 @@ def c10_formats(cfg):
                 before[k] = (id(v), snap)
             if "subspace_eigenvectors" in kw:
                 vec_snap = [v.copy() for v in kw["subspace_eigenvectors"]]
-            series = block_diagonalize(ham, hermitian=herm, **kw)
+            series = block_diagonalize(ham_in, hermitian=herm, **kw)
             nper = series[0].n_infinite
             for S in series:
                 for o in itertools.product(range(3), repeat=nper):
